@@ -26,6 +26,7 @@ import (
 //   tracer-fails-once                                   a tracer is installed whose Start() fails the first time it is called
 //   clients=33|40|75                                    that many more clients connect and stay
 //   start-again                                         Start is called on the running server
+//   garbage=1100                                        1100 clients fail their handshake on the TLS port, one after the other
 // Oracle: a lifecycle call returns within its time limit; when Start/Restart returns nil every port enabled by the
 // configuration at that moment is served; after Stop returns no port the server ever listened on is held by the
 // process, clients are closed, the registry is empty and no server goroutine remains. A Start/Restart that returns
@@ -274,6 +275,24 @@ func evalC15Cfg(c c15Cfg) *Failure {
 			deadline := time.Now().Add(10 * time.Second)
 			for len(srv.Conns()) < len(clients) && time.Now().Before(deadline) {
 				time.Sleep(time.Millisecond)
+			}
+		case "garbage=1100":
+			// that many clients fail their handshake on the TLS port, one after the other
+			if !running || !listenTLS {
+				continue
+			}
+			for k := 0; k < 1100; k++ {
+				raw, err := net.DialTimeout("tcp", fmt.Sprintf("127.0.0.1:%d", tlsPort), 5*time.Second)
+				if err != nil {
+					return failf("c15|not-accepting", "%s: %s: client %d cannot connect to the TLS port: %v", what, when, k, err)
+				}
+				raw.Write([]byte("PING\r\n"))
+				raw.SetReadDeadline(time.Now().Add(5 * time.Second))
+				raw.Read(make([]byte, 64))
+				raw.Close()
+			}
+			if fl := served(when); fl != nil {
+				return fl
 			}
 		case "drop-cert":
 			srv.ServerCert, srv.ServerKey = nil, nil
